@@ -71,7 +71,11 @@ func (p *storeProxy) Fetch(ctx context.Context, br blob.Ref) (io.ReadCloser, uin
 	}
 	w := p.g.w
 	if p.role == "src" && w.inj {
-		switch w.x.Choose("fault@src.fetch", 4) {
+		switch w.x.Choose("fault@src.fetch", 5) {
+		case 4:
+			// a source that transiently does not find a blob it has acknowledged
+			w.fault("src.fetch:not-exist")
+			return nil, 0, os.ErrNotExist
 		case 1:
 			w.fault("src.fetch:error")
 			return nil, 0, hs.ErrInjected
